@@ -184,6 +184,8 @@ pub fn run(ctx: &Ctx) -> ! {
             "drop_verdicts_checked",
             "equal_deadline_pairs",
             "crossing_deadline_pairs",
+            "stale_guard_drops",
+            "delay_forever_checked",
             "scenarios_wire",
             "scenarios_cs",
             "scenarios_lo",
